@@ -476,6 +476,34 @@ def rule_run_merge(chk, fb):
         return
     for m in merges:
         doms = [x for x in cfg.reach if cfg.dominates(x, m) and b["blocks"][x]["t"]["k"] == "switch"]
+        # `let ok = a && b && c; if ok {..}`: the tests that feed a boolean local count too - the merge needs the local to
+        # be true, so every path to it passes a definition of the local that is not the constant `false`, and whatever
+        # dominates all those definitions
+        for x in list(doms):
+            op = b["blocks"][x]["t"]["op"]
+            if "p" not in op or op["p"].get("pr"):
+                continue
+            L = op["p"]["l"]
+            for _hop in range(4):  # the tested local may be a copy of the one the conjunction is built in
+                cps = [st["rv"]["op"]["p"]["l"] for bl2 in b["blocks"] for st in bl2["s"] if st["k"] == "assign" and st["lhs"]["l"] == L and not st["lhs"].get("pr") and st["rv"]["k"] == "use" and "p" in st["rv"]["op"] and not st["rv"]["op"]["p"].get("pr")]
+                alld = [1 for bl2 in b["blocks"] for st in bl2["s"] if st["k"] == "assign" and st["lhs"]["l"] == L and not st["lhs"].get("pr")]
+                if len(cps) == 1 and len(alld) == 1:
+                    L = cps[0]
+                else:
+                    break
+            live_defs = []
+            for bi2, bl2 in enumerate(b["blocks"]):
+                for st in bl2["s"]:
+                    if st["k"] == "assign" and st["lhs"]["l"] == L and not st["lhs"].get("pr"):
+                        rv = st["rv"]
+                        is_false = rv["k"] == "use" and "p" not in rv["op"] and rv["op"].get("i", rv["op"].get("c")) in (0, False, "false")
+                        if not is_false:
+                            live_defs.append(bi2)
+                if bl2["t"]["k"] == "call" and bl2["t"].get("dest", {}).get("l") == L:
+                    live_defs.append(bi2)
+            if live_defs:
+                common = [y for y in cfg.reach if b["blocks"][y]["t"]["k"] == "switch" and all(cfg.dominates(y, d_) for d_ in live_defs)]
+                doms += [y for y in common if y not in doms]
         # only equality tests count: the switch operand derives from a PartialEq::eq call
         eq_blocks = []
         for x in doms:
